@@ -5,7 +5,7 @@
 (* The only actions of a query are Call -> Return(value) | Error: there is *)
 (* NO Panic, Abort or Timeout action, so an observed panic, abort (signal) *)
 (* or timeout matches no action of this specification.  For the hostile    *)
-(* input families F(n) the time of a call is bounded by a polynomial       *)
+(* input families F(n) the CPU time of a call is bounded by a polynomial   *)
 (* MaxMs(F, n) (generous: it only has to separate polynomial from          *)
 (* exponential growth; n <= 40 and a 2^n algorithm needs hours at n = 40). *)
 (* The module also produces the family members as text (code points).      *)
